@@ -33,7 +33,7 @@ RULE = (
     "field, ExternalTensor at offset 0/odd/large with payload mid-file or at end of file and length "
     "given/None, LazyTensor cache on/off, TorchTensor, ir.tensor(list|array|TensorProto), "
     "serialize->deserialize) and checks dtype/shape/size/nbytes, numpy() bit patterns, tobytes(), and "
-    "tofile() into a fresh file, between header and trailer, into an r+b file after seek, and into BytesIO "
+    "tofile() into a fresh file, between header and trailer, into an r+b file after seek, into an append-mode file, and into BytesIO "
     "at a non-zero position. evaluations = sub-cases (type,representation,shape). Non-trivial sub-case = "
     "size>=1 and (sub-byte type with size not a multiple of elements-per-byte, or non-native type, or "
     "non-zero file offset, or typed-field storage, or a non-finite/special pattern). distinct = distinct "
@@ -374,6 +374,15 @@ def _check_tensor(rep, t, code, shape, pats, ref_bytes, tmpdir, case, fails, fla
             fail("tofile-position", f"stream position after tofile is {pos}, expected {k + len(exp_bytes)}")
         if not (same(d[k : k + len(exp_bytes)]) and d[:k] == b"\x00" * k and len(d) == len(exp_bytes) + 20 and d[k + len(exp_bytes):] == b"\x00" * (20 - k)):
             fail("tofile-seek", "bytes written after seek differ from reference or clobber neighbours")
+        p = os.path.join(tmpdir, "out_d.bin")
+        with open(p, "wb") as f:
+            f.write(b"HEAD")
+        with open(p, "ab") as f:  # a regular file whose position is always its end
+            t.tofile(f)
+            f.write(b"TAIL")
+        d = open(p, "rb").read()
+        if not (d[:4] == b"HEAD" and d[-4:] == b"TAIL" and same(d[4:-4])):
+            fail("tofile-append", f"got {d[:24].hex()} len {len(d)} expected HEAD+{len(exp_bytes)}B+TAIL")
         bio = io.BytesIO()
         bio.write(b"xx")
         t.tofile(bio)
